@@ -94,8 +94,23 @@ func (v *vc) havocResults(st *state, sig *types.Signature, hint string) []string
 func (v *vc) execCall(fr *frame, st *state, instr ssa.Instruction, c *ssa.CallCommon, res *ssa.Call) {
 	name := calleeName(c)
 	site := v.callSite(instr)
+	v.curBlock = instr.Block()
 	v.ghostUpdates(fr, st, "before "+site)
-	defer v.ghostUpdates(fr, st, "after "+site)
+	defer func() {
+		// "callresult" / "callresultK" name the call's results in an "at after <site>" ghost update
+		v.lastCall = nil
+		if res != nil {
+			if tup := fr.tuple(res); tup != nil {
+				v.lastCall = tup
+			} else if t, ok := fr.vals[res]; ok {
+				v.lastCall = []string{t}
+			}
+			v.lastCallSig = c.Signature()
+		}
+		v.curBlock = instr.Block()
+		v.ghostUpdates(fr, st, "after "+site)
+		v.lastCall = nil
+	}()
 	if fr.top && fr.fc != nil {
 		for _, cl := range fr.fc.callRequires[site] {
 			se := v.newSpecEnv(fr, st, instr.Block())
@@ -439,6 +454,27 @@ func (v *vc) ghostUpdates(fr *frame, st *state, where string) {
 			continue
 		}
 		se := v.newSpecEnv(fr, st, nil)
+		for i, t := range v.lastCall {
+			rt := v.lastCallSig.Results().At(i).Type()
+			se.names[fmt.Sprintf("callresult%d", i)] = tv{term: t, typ: rt}
+			if i == 0 {
+				se.names["callresult"] = tv{term: t, typ: rt}
+			}
+		}
+		se.block = v.curBlock
+		if k := strings.Index(g.name, "["); k > 0 && strings.HasSuffix(g.name, "]") {
+			// ghost map update: name[index] = expr
+			base := g.name[:k]
+			ie, err := parseSpecExpr(g.name[k+1 : len(g.name)-1])
+			if err != nil {
+				v.errs = append(v.errs, err.Error())
+				continue
+			}
+			idx := se.evalInt(ie)
+			val := se.evalInt(g.expr)
+			st.ghost[base] = v.define("ghost "+base, v.ghostSorts[base], sto(st.ghost[base], idx, val))
+			continue
+		}
 		sort := v.ghostSorts[g.name]
 		var t string
 		if sort == "Bool" {
